@@ -1,7 +1,12 @@
-(* extraction of the executable C12 model (ExtrOcamlBasic only; Z/nat/positive stay extracted inductives) *)
-From Coq Require Import List ZArith Extraction ExtrOcamlBasic.
-From LN Require Import C12_Defs.
+(* extraction of the executable C12 model (Z/nat/positive stay extracted inductives).
+   Extension: the binary64 twin of sample_from_ball, the count and the model of gboost::sampler_t go into the same module;
+   primitive floats / 63-bit integers map to OCaml's native floats / Uint63 of coq-core.kernel (ExtrOCamlFloats,
+   ExtrOCamlInt63), as in Extract_C14.v. *)
+From Coq Require Import List ZArith Floats Extraction ExtrOcamlBasic ExtrOCamlFloats ExtrOCamlInt63.
+From LN Require Import C12_Defs C12_Float_Defs C12_Gboost_Defs.
 Extraction Language OCaml.
 Extraction "extracted/c12_model.ml" sort zlen perm_okb apply_perm shuffle_by kfold kfold_layoutb random_split
   random_layoutb sample_without picks_in_rangeb sample_with picks_weightedb sortedb strictb split_okb membersb
-  list_eqb.
+  list_eqb
+  ball_twin ball_comp ball_ok comps_ok squares_nu gb_count trunc_float float_of_size
+  k_off k_subsample k_bootstrap k_wei_loss k_wei_grad gb_call gb_alloc gb_weights gb_layoutb wpos_of gb_sample gb_contractb.
